@@ -40,6 +40,25 @@ def _detuple(spec: Any) -> Any:
     return (kind, out)
 
 
+def mark(cfg: Dict[str, Any]) -> Dict[str, Any]:
+    """Adds marker entry/exit actions ('en'/'ex' with the state id) to every
+    non-history state of a config (in place; existing entry/exit lists are
+    kept, the marker goes first)."""
+
+    def walk(c: Dict[str, Any], path: str) -> None:
+        if c.get("type") == "history":
+            return
+        for key, act in (("entry", "en"), ("exit", "ex")):
+            cur = c.get(key)
+            cur = [] if cur is None else (cur if isinstance(cur, list) else [cur])
+            c[key] = [{"type": act, "params": {"s": path}}] + cur
+        for k, v in c.get("states", {}).items():
+            walk(v, f"{path}.{k}")
+
+    walk(cfg, cfg["id"])
+    return cfg
+
+
 def pick(sym: Any, n: int) -> int:
     """Concrete int in [0, n) obtained by forking on a symbolic int. Values
     outside the range collapse onto n-1 (one path), so no precondition is
